@@ -472,3 +472,46 @@ package fun
 //@   props C02
 //@   requires op != nil
 //@   ensures calls(op) == old(calls(op)) + 1 && result0 == callret0(op, calls(op) - 1) && result1 == callret1(op, calls(op) - 1)
+
+// ---------------------------------------------------------------------------
+// Worker-group wiring (C03): per-worker closures.
+// ---------------------------------------------------------------------------
+
+// WithRecover: a panic of the wrapped function never escapes; it is returned
+// as an error carrying ErrRecoveredPanic; without a panic the function's own
+// error is returned.
+//@ func (Worker).WithRecover$1
+//@   props C03
+//@   option noframe
+//@   option callbacks-may-panic
+//@   modifies calls(wf)
+//@   requires wf != nil
+//@   ensures calls(wf) == old(calls(wf)) + 1
+
+// ReadAll: the per-worker loop. Every item the producer yields is handed to the
+// processor; the loop goes on only while the outcome is nil or a skip: after
+// the first other outcome (io.EOF / abort: stop quietly; anything else: return
+// it) the worker handles no further item.
+//@ func (Processor).ReadAll$1
+//@   props C03
+//@   option noframe
+//@   modifies calls(prod), calls(pf)
+//@   requires prod != nil && pf != nil && ctx != nil
+//@   ensures nofurther: forall k: int :: old(calls(pf)) <= k && k < calls(pf) - 1 ==> callret0(pf, k) == nil || errIs(callret0(pf, k), ErrIteratorSkip)
+//@   ensures inputs: forall k: int :: old(calls(prod)) <= k && k < calls(prod) - 1 ==> callret1(prod, k) == nil || errIs(callret1(prod, k), ErrIteratorSkip)
+//@   ensures reported: result != nil ==> !errIs(result, ErrIteratorSkip) && calls(prod) > old(calls(prod)) && (result == callret1(prod, calls(prod) - 1) || (callret1(prod, calls(prod) - 1) == nil && calls(pf) > old(calls(pf)) && result == callret0(pf, calls(pf) - 1)))
+//@   loop 1 invariant calls(prod) >= old(calls(prod)) && calls(pf) >= old(calls(pf)) && (forall k: int :: old(calls(pf)) <= k && k < calls(pf) ==> callret0(pf, k) == nil || errIs(callret0(pf, k), ErrIteratorSkip)) && (forall k: int :: old(calls(prod)) <= k && k < calls(prod) ==> callret1(prod, k) == nil || errIs(callret1(prod, k), ErrIteratorSkip))
+
+// The error filter of ProcessParallel: classifies the outcome of one item with
+// CanContinueOnError (which records reportable failures); when the worker may
+// not continue it answers io.EOF, which stops this worker's ReadAll loop, AND
+// cancels the group's context - so the other workers stop at their next read
+// ("the number of items started after the first failure is bounded by the
+// number of workers").
+//@ func (*Iterator).ProcessParallel$1$1
+//@   props C03
+//@   option noframe
+//@   option ghost any
+//@   requires opts != nil && opts.ErrorHandler != nil && cancel != nil
+//@   ensures goes: mayContinue(opts, err) ==> result == nil && calls(cancel) == old(calls(cancel))
+//@   ensures aborts: !mayContinue(opts, err) ==> result == io_EOF && calls(cancel) > old(calls(cancel))
